@@ -28,12 +28,12 @@ def cases(tier, rng, dist):
             for t in range(nm):
                 B = rng.randint(2, 8)
                 m = gen_matrix(rng, B, j, rng.randint(1, 4))
-                for spec in ("fisher", "tippett", COMBS[3]):
+                for spec in ("fisher", "tippett", COMBS[3], COMBS[4]):     # COMBS[4]: a valid combiner that is NOT symmetric in its arguments
                     yield {"p": [str(x) for x in perm], "distr": [[str(v) for v in r] for r in m], "comb": spec, "plus1": bool(t % 2),
                            "perm_seed": rng.randint(0, 10**6)}
     for _ in range(250 if tier == "quick" else 2500):
         j, B = rng.randint(2, 5), rng.randint(1, 8)
-        spec = rng.choice(COMBS[:4])
+        spec = rng.choice(COMBS[:5])
         hi = 7 if spec == "liptak" else 8
         pool = [Fraction(rng.randint(1, hi), 8) for _ in range(rng.randint(1, j))]
         p = [rng.choice(pool) if rng.random() < 0.5 else Fraction(rng.randint(1, hi), 8) for _ in range(j)]
